@@ -30,7 +30,7 @@ theorem default_gscale (k : Rat) : gscale k (Style.default : Style Rat) = Style.
 
 theorem boxChildren_scale (k : Rat) (cs : List (GridChildStyle Rat)) : boxChildren (scale k cs) = boxChildren cs := by
   unfold boxChildren
-  rw [scale_list, List.filter_map, List.map_map]
+  rw [scale_list, List.filter_map, List.filter_map, List.map_map]
   rfl
 
 theorem enumFrom_scale (k : Rat) : ∀ (cs : List (GridChildStyle Rat)) (n : Nat),
